@@ -203,9 +203,11 @@ func (s *Server) goLive(
 			lb.cond.L.Unlock()
 			var msgs []string
 			func() {
-				// safely lock the fence because we are outside the main loop
-				s.mu.RLock()
-				defer s.mu.RUnlock()
+				// safely lock the fence because we are outside the main loop.
+				// FenceMatch connects and disconnects object/fence groups, which
+				// modifies server-wide trees, so the exclusive lock is required.
+				s.mu.Lock()
+				defer s.mu.Unlock()
 				msgs = FenceMatch("", sw, fence, nil, details)
 			}()
 			for _, msg := range msgs {
